@@ -303,6 +303,8 @@ def prefix_idiom(ctx: Ctx, f, lst: Optional[str], nump: str, frame=None, env=Non
         def frame_has_param(name: str) -> bool:
             return name in frame.param_names()
 
+        loop_heads = {h for h in g.nodes if h.op == "iter" and h.ast is lp}
+        bound_exits = set()  # steps on the branch taken once the bound is reached (break, or continue: the counter only grows)
         for t in tests:
             c = t.ast
             if len(c.ops) == 1 and is_counter(c.left):
@@ -313,8 +315,9 @@ def prefix_idiom(ctx: Ctx, f, lst: Optional[str], nump: str, frame=None, env=Non
                     continue
                 if isinstance(c.ops[0], ast.GtE):
                     leaves = [s for s, lab in t.succ if lab[0] == "T"]
-                    # the true branch must leave the loop without appending
-                    r = reach(leaves, lambda x, y, lab: lab[0] in NORMAL_KINDS, avoid=set())
+                    # the true branch must end the iteration without appending (`break`, or `continue`: the count never shrinks)
+                    r = reach(leaves, lambda x, y, lab: lab[0] in NORMAL_KINDS, avoid=loop_heads)
+                    bound_exits |= r
                     if a in r:
                         good = False
                     else:
@@ -339,7 +342,7 @@ def prefix_idiom(ctx: Ctx, f, lst: Optional[str], nump: str, frame=None, env=Non
                 return False, f"the selection depends on the value of the id (`{ast.unparse(t.ast)}`); running ids have gaps, only the number collected may bound the loop"
         # every iteration before the bound appends (no other skip)
         heads = [h for h in g.nodes if h.pred and h.op == "iter" and h.ast is lp]
-        others = [n for n in ctx.nodes(f, lambda n: n.op in ("continue",) and n.loops and n.loops[-1] is lp)]
+        others = [n for n in ctx.nodes(f, lambda n: n.op in ("continue",) and n.loops and n.loops[-1] is lp) if n not in bound_exits]
         if others:
             return None, "the loop skips some ids"
         return True, "enumerate(reversed(running)) with `i >= num: break` before the append"
